@@ -223,6 +223,9 @@ func stmtCases() []*Case {
 	for _, s := range declTemplates {
 		emit("decl", "%S", s)
 	}
+	for _, s := range cornerPrograms {
+		emit("corner", "%S", s)
+	}
 	return out
 }
 
